@@ -52,6 +52,14 @@ namespace foonathan
                            + (number_of_nodes % chunk_max_nodes == 0 ? 0 : 1);
                 }
 
+                // size of a full chunk plus the padding insert() puts behind it to align the next chunk
+                static constexpr std::size_t padded_chunk_size(std::size_t node_size)
+                {
+                    return (chunk_memory_offset + chunk_max_nodes * node_size + alignof(chunk_base)
+                            - 1)
+                           / alignof(chunk_base) * alignof(chunk_base);
+                }
+
             public:
                 // minimum element size
                 static constexpr std::size_t min_element_size = 1;
@@ -62,8 +70,7 @@ namespace foonathan
                 static constexpr std::size_t min_block_size(std::size_t node_size,
                                                             std::size_t number_of_nodes)
                 {
-                    return chunk_count(number_of_nodes)
-                           * (chunk_memory_offset + chunk_max_nodes * node_size);
+                    return chunk_count(number_of_nodes) * padded_chunk_size(node_size);
                 }
 
                 //=== constructor ===//
